@@ -75,8 +75,18 @@ type Env interface {
 
 const maxTasks = 8
 
-// a phase that takes longer than this in real time is abandoned like one that exceeds the step budget
-const maxRunWall = 20 * time.Second
+// a phase that burns more processor time than this is abandoned like one that exceeds the
+// step budget (processor time of this one-P worker process, not wall-clock time: a loaded
+// machine must not turn a slow run into a harness error)
+const maxRunCPU = 30 * time.Second
+
+func cpuTime() time.Duration {
+	var ru syscall.Rusage
+	if err := syscall.Getrusage(syscall.RUSAGE_SELF, &ru); err != nil {
+		return 0
+	}
+	return time.Duration(ru.Utime.Nano() + ru.Stime.Nano())
+}
 
 var (
 	slotGid [maxTasks]atomic.Uint64
@@ -133,7 +143,7 @@ type Sched struct {
 	Overrun    bool
 	Blocks     int      // times a task was found blocked in an unannounced synchronisation primitive
 	leaked     bool     // tasks blocked for good could not be joined
-	began      time.Time
+	began      time.Duration // processor time of the process when the phase began
 	Log        []string // optional full event log
 	KeepLog    bool
 }
@@ -518,7 +528,7 @@ func (s *Sched) RunPhase(bodies []func(tc *TaskCtx), locals []any, nEnv int) []*
 		s.yieldsLeft[i] = s.YieldBudget
 	}
 	s.initStrategy(n)
-	s.began = time.Now()
+	s.began = cpuTime()
 	s.loop()
 	running.Store(nil)
 	stuck := false
@@ -687,8 +697,8 @@ func (s *Sched) loop() {
 			s.logf("DEADLOCK")
 			return
 		}
-		if s.Steps >= s.MaxSteps || (s.Steps%32 == 31 && time.Since(s.began) > maxRunWall) {
-			// (the wall-clock bound only decides when a run that is going nowhere is given
+		if s.Steps >= s.MaxSteps || (s.Steps%32 == 31 && cpuTime()-s.began > maxRunCPU) {
+			// (the processor-time bound only decides when a run that is going nowhere is given
 			// up as a harness error; it never enters a verdict)
 			s.Overrun = true
 			return
